@@ -212,7 +212,13 @@ def over_tcp(ctx, rng, pname, conf, argv_extra):
         c = holder.get('c')
         if c is None or c.closed:
             c = holder['c'] = simdrv.RawClient(sim.address)
-            c.register()
+            try:
+                c.register()
+            except RuntimeError:
+                # a simulator of this personality that does not even open a session serves no request, whatever its route path
+                c.close()
+                holder['c'] = None
+                return None, None, 'session-not-opened'
         fr = c.rr(payload, wrap=False)
         if fr is None or fr['status'] != 0:
             c.close()
